@@ -5,7 +5,7 @@
     endpoint.go.  NOT modelled: gorilla/mux beyond exact first-match on the path (path cleaning, templates with braces),
     the XML of the document (C18), the cryptographic use of the certificate (C04). *)
 From Saml Require Import Xml.SchemaTypes Xml.Schema Gen.Schema Xml.SamlSpec.
-From Saml Require Import Base.Bytes Idp.FactTypes Gen.Facts Gen.Pure Idp.Sso Idp.Router Proofs.SsoProofs Proofs.SsoAccept Proofs.SsoLiveness.
+From Saml Require Import Base.Bytes Idp.FactTypes Gen.Facts Gen.Pure Idp.Sso Idp.Router Proofs.SsoProofs Proofs.SsoAccept Proofs.SsoLiveness Idp.BuilderTypes Idp.Builder Idp.BuiltDoc.
 From Coq Require Import List. Import ListNotations.
 
 (** the model's routes / advertised locations / entity ID are what the current source says *)
@@ -92,6 +92,33 @@ Proof.
   - exists st. exact E.
 Qed.
 
+(** the metadata document itself, from the source of Config.getMetadata / IdentityProvider.GetMetadata /
+    IdentityProviderConfig.getMetadata (builder programs regenerated by go2v), for every configuration and every value of
+    the oracles: entityID is the entity ID (the expression the handlers use as Issuer), WantAuthnRequestsSigned is the
+    configured string, the signing KeyDescriptor of both role descriptors carries the response certificate, the service
+    locations are the endpoints' absolute URLs.  The C18 correspondence (KBuiltX) rebuilds the served document from these
+    programs and the generated schema and compares it with the real one. *)
+Theorem C11_metadata_document : forall want enc cache errurl eid issuer cert sso slo attr valid id1 id2 id3 (org contact : bool),
+  let ic := idp_conf want enc cache errurl in
+  let conf := DObj "provider.Config" [("IDPConfig"%string, ic);
+                ("Organisation"%string, if org then DObj "provider.Organisation" [("Name"%string, DStr (b "n")); ("DisplayName"%string, DStr (b "d")); ("URL"%string, DStr (b "u"))] else DNil);
+                ("ContactPerson"%string, if contact then DObj "provider.ContactPerson" [("ContactType"%string, DStr (b "technical")); ("Company"%string, DStr (b "c")); ("GivenName"%string, DStr (b "g"));
+                                                    ("SurName"%string, DStr (b "s")); ("EmailAddress"%string, DStr (b "e")); ("TelephoneNumber"%string, DStr (b "t"))] else DNil)] in
+  md_sat (md_oracles eid issuer cert sso slo attr valid) conf (DObj "provider.IdentityProvider" [("conf"%string, ic); ("TimeFormat"%string, DStr (b "f"))]) [id1; id2; id3]
+    (fun d =>
+       at_ d ["EntityID"%string] = Some (DStr eid) /\ at_ d ["Id"%string] = Some (DStr id1) /\
+       at_ d ["IDPSSODescriptor"; "Id"]%string = Some (DStr id2) /\ at_ d ["AttributeAuthorityDescriptor"; "Id"]%string = Some (DStr id3) /\
+       at_ d ["IDPSSODescriptor"; "WantAuthnRequestsSigned"]%string = Some (DStr want) /\
+       dget d (key_cert "IDPSSODescriptor") = Some (DStr cert) /\ dget d (key_cert "AttributeAuthorityDescriptor") = Some (DStr cert) /\
+       dget d [PField "IDPSSODescriptor"; PField "KeyDescriptor"; PIndex 0; PField "Use"] = Some (DStr (b "signing")) /\
+       dget d [PField "IDPSSODescriptor"; PField "SingleSignOnService"; PIndex 0; PField "Location"] = Some (DStr sso) /\
+       dget d [PField "IDPSSODescriptor"; PField "SingleSignOnService"; PIndex 1; PField "Location"] = Some (DStr sso) /\
+       dget d [PField "IDPSSODescriptor"; PField "SingleLogoutService"; PIndex 0; PField "Location"] = Some (DStr slo) /\
+       dget d [PField "IDPSSODescriptor"; PField "SingleLogoutService"; PIndex 1; PField "Location"] = Some (DStr slo) /\
+       dget d [PField "AttributeAuthorityDescriptor"; PField "AttributeService"; PIndex 0; PField "Location"] = Some (DStr attr) /\
+       at_ d ["IDPSSODescriptor"; "ValidUntil"]%string = Some (DStr valid)).
+Proof. exact metadata_fields. Qed.
+
 Print Assumptions C11_from_source.
 Print Assumptions C11_entity_id.
 Print Assumptions C11_routes.
@@ -100,3 +127,4 @@ Print Assumptions C11_first_match.
 Print Assumptions C11_want_signed.
 Print Assumptions C11_schema.
 Print Assumptions C11_unsigned_accepted_otherwise.
+Print Assumptions C11_metadata_document.
